@@ -2,6 +2,7 @@ package main
 
 import (
 	"fmt"
+	"os"
 	"sort"
 	"strings"
 	"unsafe"
@@ -30,6 +31,7 @@ type C19Config struct {
 	NoFault    bool   `json:"no_fault,omitempty"`
 	Loose      bool   `json:"loose_return,omitempty"`
 	Tags       string `json:"tags,omitempty"`
+	Big        bool   `json:"big,omitempty"` // the program may hold tensors of up to 2^17 elements
 }
 
 type Violation struct {
@@ -64,6 +66,7 @@ type C19Stats struct {
 	FaultsFired, DenseFull, DenseRotations uint64
 	Unterminated, Unreproducible           uint64
 	WindowChecks                           uint64
+	BigPrograms                            uint64
 	NontrivialDigests                      map[uint64]struct{}
 	Samples                                []interface{}
 }
@@ -94,6 +97,10 @@ func snapWorld(w *World) ([]Snap, []bool, []int) {
 
 // runRef executes (and, when prog is nil, generates) the program in the reference world.
 func runRef(seed uint64, cfg *C19Config, prog []Op, st *C19Stats) ([]Op, []stepRec, *Violation) {
+	setBig(cfg.Big)
+	if cfg.Big && st != nil {
+		st.BigPrograms++
+	}
 	resetGlobals(false)
 	w := newWorld(false)
 	w.eng = &FaultEng{st: &faultState{}}
@@ -101,7 +108,7 @@ func runRef(seed uint64, cfg *C19Config, prog []Op, st *C19Stats) ([]Op, []stepR
 	var g *Gen
 	n := len(prog)
 	if prog == nil {
-		g = &Gen{r: &r, w: w, maxLive: cfg.MaxLive, noFault: cfg.NoFault, loose: cfg.Loose}
+		g = &Gen{r: &r, w: w, maxLive: cfg.MaxLive, noFault: cfg.NoFault, loose: cfg.Loose, big: cfg.Big}
 		n = cfg.Len
 	}
 	advr := r.Fork(0xadadad)
@@ -237,7 +244,7 @@ func runRef(seed uint64, cfg *C19Config, prog []Op, st *C19Stats) ([]Op, []stepR
 }
 
 // independentResult: operations whose result (without a reuse or unsafe option) is documented as a tensor of its own.
-var independentResult = map[string]bool{"SafeT": true, "PkgT": true, "Materialize": true, "PkgTranspose": true, "Clone": true, "Clamp": true, "Apply": true,
+var independentResult = map[string]bool{"NewOpt": true, "SafeT": true, "PkgT": true, "Materialize": true, "PkgTranspose": true, "Clone": true, "Clamp": true, "Apply": true,
 	"Reduce": true, "Sum": true, "Max": true, "Min": true, "PkgSum": true, "Norm": true, "Argmax": true, "Argmin": true,
 	"MatVecMul": true, "MatMul": true, "Outer": true, "TensorMul": true, "Contract": true, "Dot": true,
 	"Concat": true, "PkgConcat": true, "Stack": true, "Hstack": true, "Vstack": true, "Repeat": true, "PkgRepeat": true,
@@ -307,6 +314,7 @@ func classOf(d string) string {
 
 // runAdv re-executes the literal program in the adversarial world and compares with the reference.
 func runAdv(seed uint64, cfg *C19Config, prog []Op, recs []stepRec, st *C19Stats) (*Violation, uint64) {
+	setBig(cfg.Big)
 	resetGlobals(true)
 	P.recycleNum, P.dropDen, P.policy = cfg.RecycleNum, cfg.DropDen, cfg.Policy
 	if cfg.DensePre > 0 {
@@ -444,6 +452,17 @@ func c19Config(r *RNG, tier string) C19Config {
 		cfg.DensePre = 1 + r.Intn(6)
 	}
 	cfg.NoFault = r.Intn(3) > 0 // fault-free and fault-injecting configurations are separate runs
+	if r.Intn(50) == 0 || os.Getenv("VERIF_FORCE_BIG") != "" {
+		// a short program over a few tensors, some of them large: code that switches strategy at a size
+		// (bulk copies, scratch buffers, chunked kernels) is only entered by those
+		cfg.Big = true
+		if cfg.Len > 10 {
+			cfg.Len = 4 + r.Intn(7)
+		}
+		if cfg.MaxLive > 4 {
+			cfg.MaxLive = 2 + r.Intn(3)
+		}
+	}
 	return cfg
 }
 
